@@ -37,6 +37,13 @@ func c04Join(frs [][]byte) []byte {
 	return out
 }
 
+// Every complete transmission is decompressed by a fresh xz reader, which allocates its default 8 MiB
+// dictionary whatever the stream says (measured: 8.4 MB for a 72-byte stream). That is a fixed cost per
+// transmission that has arrived in full; a frame can complete at most one transmission.
+func init() {
+	vk.ExtraBudget = func(in []byte) uint64 { return 9 << 20 * uint64(len(c04Split(in))) }
+}
+
 func c04TargetFragments(in []byte) string {
 	conn := NewConnector(vfNullModem{64}, false)
 	delivered := 0
